@@ -395,7 +395,7 @@ def gen_offset(r: random.Random, k: int, allow_nondyadic: bool):
     """An offset t in [0, 1) of the gap, as (Fraction, class name)."""
     K = 1 << k
     j = r.randint(0, K - 1)
-    kind = r.choice(['grid', 'grid_half', 'grid_eps', 'tiny', 'almost1', 'zero', 'nondyadic', 'rand'])
+    kind = r.choice(['grid', 'grid_half', 'grid_eps', 'tiny', 'almost1', 'zero', 'nondyadic', 'rand', 'long_tail'])
     if kind == 'nondyadic' and not allow_nondyadic:
         kind = 'rand'
     if kind == 'zero':
@@ -414,6 +414,14 @@ def gen_offset(r: random.Random, k: int, allow_nondyadic: bool):
         if not (0 < t < 1):
             t = Fraction(2 * j + 1, 2 * K) + Fraction(1, K << (d + 1))
         return t, 'grid_eps'
+    if kind == 'long_tail':
+        # a dyadic operand whose significand runs to more than a thousand digits (an exact sum or
+        # product does): a grid point, a half-way point or a random position, plus or minus a far tail
+        base = r.choice([Fraction(j, K), Fraction(2 * j + 1, 2 * K), Fraction(r.randint(1, (K << 4) - 1), K << 4)])
+        t = base + r.choice([-1, 1]) * Fraction(1, 1 << r.choice([1040, 1100, 1500, 2100]))
+        if not (0 < t < 1):
+            t = Fraction(2 * j + 1, 2 * K) + Fraction(1, 1 << 1100)
+        return t, 'long_tail'
     if kind == 'tiny':
         return Fraction(1, 1 << 40), 'tiny'
     if kind == 'almost1':
